@@ -37,3 +37,6 @@ Proof. intros fuel md wd main bs Hm H.
   assert (Hm3 : (md <= 3)%nat) by (destruct Hm as [-> | ->]; repeat constructor).
   destruct (FragH.C02_headers_balanced_modes fuel (R "xhtml") md wd main bs (or_introl eq_refl) Hm3 H) as (_ & _ & _ & _ & A & B). split; [exact A|].
   intros i e E. destruct (B i e E) as [B1 B2]. split; [exact B1|]. apply B2. destruct Hm as [-> | ->]; repeat constructor. Qed.
+
+Print Assumptions C05_toc_entries_refer_to_their_header_partial.
+Print Assumptions C05_examples.
